@@ -60,6 +60,7 @@ def run_case(case):
         n += 1
         if depth >= 1 or m > 1:
             keys += 1
+            res.setdefault("keys", []).append("%d:%d:%s" % (case["seed"], st.uid, keep))
         res["counts"]["cons:%s/%s" % (st.cons or "-", st.role)] = res["counts"].get("cons:%s/%s" % (st.cons or "-", st.role), 0) + 1
         exp_text = lines[last - 1]
         if (st.uid + case["seed"]) % 9 == 0:
